@@ -126,9 +126,13 @@ def parseOp (tok : String) : Option (Op CF × Kernels CF) :=
       let l ← l.toNat?
       let ys ← parseC (nr * l) y
       some (.decode nr l (toMat nr l ys), K)
-  | "flt" :: v :: _ => (parseC 1 v).map (fun a => (.filters (a.getD 0 0), K))
+  | "flt" :: v :: _ =>
+      if v = "none" then some (.filters none, K)
+      else (parseC 1 v).map (fun a => (.filters (some (a.getD 0 0)), K))
   | "sinr" :: v :: _ => (parseC 1 v).map (fun a => (.sinr (a.getD 0 0), K))
   | "chan" :: _ => some (.channel, K)
+  | "nvq" :: _ => some (.noiseVar, K)
+  | "layers" :: _ => some (.layers, K)
   | _ => none
 
 def showOut : Out CF → String
@@ -136,6 +140,7 @@ def showOut : Out CF → String
   | .done => "done"
   | .mat m n A => "mat:" ++ toString m ++ ":" ++ toString n ++ ":" ++ showMat A
   | .vec n v => "vec:" ++ toString n ++ ":" ++ showVec v
+  | .nat k => "nat:" ++ toString k
   | .two m n A p q B => "two:" ++ toString m ++ ":" ++ toString n ++ ":" ++ showMat A ++ ":" ++
       toString p ++ ":" ++ toString q ++ ":" ++ showMat B
 
